@@ -5,7 +5,7 @@ use crate::gen::Rng;
 use crate::out::Shards;
 use serde_json::{json, Value};
 
-const NAMES: &[&str] = &["a", "b", "div", "p", "br", "img", "span", "svg", "path", "g", "x-y", "title"];
+const NAMES: &[&str] = &["a", "b", "div", "p", "br", "img", "span", "svg", "path", "g", "x-y", "title", "math", "mi", "annotation-xml", "b"];
 
 fn b(s: &str) -> Vec<u8> { s.as_bytes().to_vec() }
 
